@@ -709,3 +709,47 @@ fn c09_big_arith() {
 
 // (Products and remainders through num-bigint exhaust CBMC's memory even on concrete operands;
 // which operator the fall-back closure of `*` applies is pinned only by the test suite.)
+
+// ------------------------------------------------------------------------------------------
+// C10 / C13: character positions in text strings
+// ------------------------------------------------------------------------------------------
+/// `skip_take_chars` applies the one position model to the *character* count of the text (as
+/// bstr decodes it: every invalid byte sequence is one character) and returns byte offsets of
+/// character boundaries: `(B[from], B[from + take] - B[from])` where `B` lists the boundaries
+/// and `(from, take)` is the array model on the number of characters.  So slicing text never
+/// splits a character and never leaves the string.  Precondition (type invariant of PosUsize,
+/// established by `as_pos_usize`, O-C10-posusize): a negative position has magnitude >= 1.
+fn skip_take_chars_model<const N: usize>() {
+    let buf: [u8; N] = kani::any();
+    let n: usize = kani::any();
+    kani::assume(n <= N);
+    let b = &buf[..n];
+    let s: Option<PosUsize> = kani::any();
+    let e: Option<PosUsize> = kani::any();
+    kani::assume(s.map_or(true, |p| p.0 || p.1 >= 1) && e.map_or(true, |p| p.0 || p.1 >= 1));
+    // boundaries
+    let mut bounds = [0usize; 5];
+    let mut nchars = 0;
+    for (start, _end, _c) in b.char_indices() {
+        bounds[nchars] = start;
+        nchars += 1;
+    }
+    bounds[nchars] = n;
+    kani::cover!(nchars < n);
+    kani::cover!(matches!(s, Some(PosUsize(false, _))) && nchars == 2);
+    let (from, take) = skip_take_spec(s, e, nchars);
+    let (skip_b, take_b) = skip_take_chars(s..e, b);
+    assert!(skip_b == bounds[from]);
+    assert!(take_b == bounds[from + take] - bounds[from]);
+    assert!(skip_b + take_b <= n);
+}
+#[kani::proof]
+#[kani::unwind(5)]
+fn c10_skip_take_chars_2() {
+    skip_take_chars_model::<2>()
+}
+#[kani::proof]
+#[kani::unwind(6)]
+fn c10_skip_take_chars_3() {
+    skip_take_chars_model::<3>()
+}
